@@ -32,7 +32,8 @@ ASSUMPTIONS = [
 RULE = ("sequences of 1-30 scripted tests, each with 0-6 alloc/free/realloc per phase (setup, body, teardown, and between tests), "
         "frees of earlier tests' blocks, tracked reallocs of own and earlier blocks with the platform realloc succeeding or "
         "failing (PlatformSpecificRealloc seam), memory operations in the constructor / destructor of the test object, tests "
-        "run in a separate process, overload switches between tests, FinalReport(n), destroyGlobalDetector, expected-leak counts 0-3, ignore flag, own failures in any phase; both detector "
+        "run in a separate process, further plugin objects constructed between/inside tests (kept or destroyed) with "
+        "declarations made through the real EXPECT_N_LEAKS / IGNORE_ALL_LEAKS_IN_TEST macros, overload switches between tests, FinalReport(n), destroyGlobalDetector, expected-leak counts 0-3, ignore flag, own failures in any phase; both detector "
         "modes; non-trivial = at least two tests and at least one leak failure or one test passing with outstanding blocks; "
         "distinct = distinct op sequences")
 
@@ -181,6 +182,12 @@ def gen_test(rng, sim, tno, is_global, malformed, bulk=False):
         st["aborted"] = keep
         return lines
 
+    # a further plugin object (never installed) is constructed: between the tests or inside this one
+    p2 = rng.random()
+    if p2 < 0.05:
+        ops.append("cmd %d o plugin2 %s" % (tno, rng.choice(["keep", "destroy"])))
+    elif p2 < 0.09:
+        ops.append("cmd %d %s plugin2 %s" % (tno, rng.choice(["s", "b", "b", "t"]), rng.choice(["keep", "destroy"])))
     if (not bulk) and rng.random() < 0.25:
         ops += obj_phase("c")
     for ph in PHASES:
@@ -258,6 +265,11 @@ def fixed_cases():
                    "test 4", "cmd 4 o overloads on", "cmd 4 d alloc 7 3", "test 5", "cmd 5 b free 1", "cmd 5 b free 5", "final 2"]),
         ("fixed", ["mode global", "test 1", "cmd 1 c alloc 20 8 new", "cmd 1 b alloc 1 10 malloc", "test 2", "cmd 2 o separate",
                    "cmd 2 b fail", "test 3", "cmd 3 o separate", "cmd 3 b alloc 2 1 new", "cmd 3 b expect 1", "destroy"]),
+        ("fixed", ["mode private", "test 1", "cmd 1 o plugin2 keep", "cmd 1 b expect 1", "cmd 1 b alloc 1 8",
+                   "test 2", "cmd 2 b plugin2 destroy", "cmd 2 b ignore", "cmd 2 b alloc 2 8", "test 3", "cmd 3 t expect 2",
+                   "cmd 3 t alloc 3 1", "cmd 3 t alloc 4 1"]),
+        ("fixed", ["mode global", "test 1", "cmd 1 b plugin2 keep", "cmd 1 b expect 1", "cmd 1 b alloc 1 8 new",
+                   "test 2", "cmd 2 o plugin2 destroy", "cmd 2 b ignore", "cmd 2 b alloc 2 8 malloc"]),
         ("fixed", ["mode private nooverloads", "test 1", "cmd 1 b alloc 1 8", "test 2", "cmd 2 b expect 1"]),
         ("fixed", ["mode private"] + ["test 1"] + ["cmd 1 b alloc %d 8" % i for i in range(1, 31)] + ["test 2", "cmd 2 b alloc 40 1"]),
     ]
@@ -286,6 +298,7 @@ def _tests(r):
     """per-test summaries from the implementation's lines"""
     tests, cur, last_cmd = [], None, None
     live = set()
+    seen_p2 = [False]
     for l in r.impl:
         w = l.split()
         if not w:
@@ -302,6 +315,11 @@ def _tests(r):
             kind = last_cmd[2]
             if last_cmd[1] in ("c", "d") and w[0] in ("num", "ok") and kind in ("alloc", "free", "realloc"):
                 cur["events"].append("memory_op_in_constructor" if last_cmd[1] == "c" else "memory_op_in_destructor")
+            if kind == "plugin2" and w[0] == "ok":
+                cur["events"].append("second_plugin_constructed_" + ("between_tests" if last_cmd[1] == "o" else "inside_test"))
+                seen_p2[0] = True
+            if kind in ("expect", "ignore") and w[0] == "ok" and seen_p2[0]:
+                cur["events"].append("declaration_after_second_plugin")
             if kind == "overloads" and w[0] == "ok":
                 cur["events"].append("overloads_switched_" + last_cmd[3])
             if w[0] == "num" and kind == "realloc":
